@@ -571,6 +571,24 @@ def _reference_cv(seed):
     return ShuffleSplit(n_splits=3, train_size=0.45, test_size=0.3, random_state=seed)
 
 
+def _fitted_anywhere(est, seen=None):
+    """Names of fitted attributes (trailing underscore) on an estimator or on any estimator nested in its parameters
+    (Chain.steps, Vector.components ...): a copy that shares those with the original leaves the ORIGINAL's parts fitted."""
+    seen = set() if seen is None else seen
+    if id(est) in seen:
+        return []
+    seen.add(id(est))
+    found = []
+    if hasattr(est, "get_params") and hasattr(est, "__dict__"):
+        found += ["%s.%s" % (type(est).__name__, k) for k in vars(est) if k.endswith("_") and not k.startswith("_")]
+        for v in vars(est).values():
+            found += _fitted_anywhere(v, seen)
+    elif isinstance(est, (list, tuple)):
+        for v in est:
+            found += _fitted_anywhere(v, seen)
+    return found
+
+
 def cross_val_reference(kind, coordinates, data, weights, scoring, delayed, seed):
     """Client of the real cross_val_score / train_test_split / SplineCV on real estimators."""
     import warnings
@@ -585,7 +603,7 @@ def cross_val_reference(kind, coordinates, data, weights, scoring, delayed, seed
         scores = verde.cross_val_score(est, coordinates, data, weights=weights, cv=cv, scoring=scoring, delayed=delayed)
         if delayed:
             scores = np.array([s.compute() for s in reversed(scores)][::-1])
-    untouched = set(vars(est)) == set(before)
+    untouched = set(vars(est)) == set(before) and not _fitted_anywhere(est)
     return scores, untouched
 
 
@@ -598,10 +616,10 @@ class CrossValReference(Contract):
         return []
 
     def samples(self, rng, nrng, tier):
-        for _ in range(12 if tier == "thorough" else 5):
+        for it in range(12 if tier == "thorough" else 6):
             n = rng.randint(12, 25)
             e, nn = nrng.uniform(-2, 2, n), nrng.uniform(-2, 2, n)
-            kind = rng.choice(["trend", "vector", "knn"])
+            kind = ["vector", "trend", "knn"][it % 3]  # (every kind in every run; "vector" nests other estimators)
             d = (e + 2 * nn + nrng.normal(0, 0.3, n), e * nn + nrng.normal(0, 0.3, n)) if kind == "vector" else e - nn + nrng.normal(0, 0.3, n)
             w = None
             if rng.random() < 0.5:
